@@ -3,6 +3,12 @@ NOTES = ("All checks build the CURRENT /repo tree: harness test files, the kit p
          "Exit 0 = held on everything explored (known findings are printed as KNOWN-FINDING lines), exit 1 = VIOLATION, exit 2 = internal error.")
 NOT_APPLICABLE = {}
 META = {
+    "C01": {
+        "technique": "bounded-exhaustive input enumeration: every epoch shape within k deviations (k=2 quick, 3 thorough) of a base epoch from a 33-item deviation menu, plus item-count boundary epochs, each indexed by the real `index all` and looked up exhaustively against generator-side ground truth",
+        "text": "All combinations of up to 2 (thorough 3) deviations from a 2-block base epoch (block/entry/tx counts, 1/2/3-byte section varints, metadata and rewards frame layouts, epochs 0/1/700, longer header, subsets, optional fields, block-time edge values) x {local file, ReaderAt}, plus epochs with 9996..10001 (thorough also 19996..20001) transactions and 4998..10001 blocks: after the real index generation every object is fetched by CID (bytes identical, index offset/size equal to the generator's own counters), every slot and signature resolves, sig-exists answers yes, block time matches. A failing `index all` is accepted (nothing else demanded).",
+        "design_ref": "§4 C01, §3.4",
+        "note": "Trusted: cargen (reference ipld-prime encoder + own offset counters) as ground truth; the sig-exists writer's capacity hint (16000 per prefix, 8 GiB) is shrunk to 16 by an overlay rule (allocation size only). Not covered: remote HTTP CARs beyond the ReaderAt seam, Filecoin mode.",
+    },
     "C06": {
         "technique": "stateless model checking of the implementation: all push histories up to a depth x all interleavings (preemption-bounded, HB state pruning) of Push/Close with the background flusher on the instrumented writer with shrunk thresholds, read back through the real reader; plus real-threshold runs and exhaustive record-length windows",
         "text": "Every history of <=4 (thorough <=6) pushes over {A},{B},{A,B} x slot parity, followed by Close, is run under every schedule of the writer thread and the background flusher within preemption bound 2 (thorough 3); the real reader must return exactly the reverse push order for both addresses. The un-instrumented writer is additionally driven at the real thresholds (per-address counts 1,2,999..1001,1999..2001,3000,3001 and a >100000-address run that triggers the periodic partial flush), and linked-log records of every reachable length in [min,400] and [16300,16500] are written and read back. Histories x schedules is exactly the property's quantifier.",
